@@ -36,7 +36,24 @@ def main():
                 bad += 1
                 print("ACCEPTED: content %r, codeword %d replaced by %d: %s" % (content, pos, v, rd[:60]))
     print("DataMatrix pad substitutions judged: %d, wrongly accepted: %d" % (total, bad))
-    return 1 if bad else 0
+    # QR: every value in the place of the terminator / pad bytes of a version 1-L byte-mode symbol ("Hello")
+    import c01
+    qm = build_model(c01)
+    q1 = lambda l: run_lines(qm, [l], 1)[0]
+    bits = q1("qrbits 0 3 48656c6c6f").split()[-1]
+    data = bytes(int(bits[i:i + 8], 2) for i in range(0, len(bits), 8))
+    subs = [(pos, v) for pos in range(7, len(data)) for v in range(256) if v != data[pos]]
+    ils = run_lines(qm, ["qrblocks 1 0 " + (data[:p] + bytes([v]) + data[p + 1:]).hex() for p, v in subs], NCPU)
+    rows = run_lines(qm, ["qrrender 1 0 " + il.split()[0] for il in ils], NCPU)
+    reads = run_lines(qm, ["qrdec %s 0 3 48656c6c6f" % r.split("|")[0] for r in rows], NCPU)
+    qbad = 0
+    for (p, v), o in zip(subs, reads):
+        kv = dict(x.split("=", 1) for x in o.split() if "=" in x)
+        if o.startswith("OK") and kv.get("valid") == "1" and kv.get("pad") == "1" and kv.get("rem") == "1" and o.split()[-1] == "48656c6c6f":
+            qbad += 1
+            print("ACCEPTED: QR data codeword %d replaced by %d" % (p, v))
+    print("QR terminator / pad substitutions judged: %d, wrongly accepted: %d" % (len(subs), qbad))
+    return 1 if bad or qbad else 0
 
 
 if __name__ == "__main__":
